@@ -829,3 +829,8 @@ impl<'a> LiveEvents<'a> {
         false
     }
 }
+
+// verification hook: bounded-model-checking harnesses (compiled only by Kani, `--cfg kani`)
+#[cfg(kani)]
+#[path = "/verif/harness/h_live_events.rs"]
+mod verif;
